@@ -418,58 +418,60 @@ pub(super) const VLEN: usize = 2; // bytes per caller iovec (0..=VLEN)
 pub(super) static mut BUFS: [[u8; VLEN]; NV] = [[0x5a; VLEN]; NV]; // the caller's buffers
 pub(super) static mut VBASE: [*mut u8; NV] = [std::ptr::without_provenance_mut(0x61); NV];
 pub(super) static mut VLENS: [usize; NV] = [0x58; NV];
-pub(super) static mut IOV_OK: bool = true; // C17: every request described exactly the unfilled ranges, in order
+pub(super) static mut IOV_OK: bool = true; // C17: every request described only not-yet-transferred ranges of the caller, in order
+pub(super) static mut NEXT_OK: bool = true; // C16: ... and exactly the next positions
 pub(super) static mut IOV_CALLS: usize = 0x59;
 
-/// The ranges the caller still expects to be filled/sent after `MOVED` bytes, zero-length ones dropped.
-unsafe fn expected_ranges() -> ([(usize, usize); NV], usize) {
-    let mut out = [(0usize, 0usize); NV];
-    let mut k = 0;
-    let mut start = 0;
-    let mut j = 0;
-    while j < NV {
-        let l = VLENS[j];
-        if MOVED < start + l {
-            let off = if MOVED > start { MOVED - start } else { 0 };
-            out[k] = (VBASE[j] as usize + off, l - off);
-            k += 1;
-        }
-        start += l;
-        j += 1;
-    }
-    (out, k)
-}
-
 /// Kernel side of a vectored call. It reads exactly `cnt` elements of the array it is handed (an
-/// over-long count is an out-of-bounds read CBMC reports), compares them - zero-length elements
-/// dropped - with the caller's unfilled ranges (C17), and moves bytes by *logical position* into /
-/// out of the caller's buffers - which, when IOV_OK holds, is exactly where the handed ranges point,
-/// so the bytes themselves are not copied by the model.
+/// over-long count is an out-of-bounds read CBMC reports) and maps every non-empty element to its
+/// logical position in the caller's request (iovec j, offset off -> VLENS[0..j] + off; equality tests
+/// only, no pointer ordering).
+///  * IOV_OK (C17): the element lies inside one of the caller's buffers, starts at or after the first
+///    byte not yet transferred, and elements come in increasing order without overlap.
+///  * NEXT_OK (C16): in addition the elements are exactly the next positions (no gap), so that the bytes
+///    the kernel moves land in order. Offering fewer bytes than are outstanding is allowed.
+/// Bytes are moved by *logical position* - which, when NEXT_OK holds, is exactly where the handed
+/// ranges point - so the bytes themselves are not copied by the model.
 unsafe fn kernel_vectored(iov: *const libc::iovec, cnt: usize, is_read: bool) -> libc::ssize_t {
     IOV_CALLS += 1;
-    let (want, nwant) = expected_ranges();
-    let mut seen = 0;
+    let mut cursor = MOVED;
     let mut offered = 0;
     let mut i = 0;
     while i < cnt {
         let e = *iov.add(i);
         if e.iov_len != 0 {
-            if seen >= nwant || want[seen].0 != e.iov_base as usize || want[seen].1 != e.iov_len {
-                IOV_OK = false;
+            let mut lp = usize::MAX;
+            let mut start = 0;
+            let mut j = 0;
+            while j < NV {
+                let mut off = 0;
+                while off < VLEN {
+                    if off < VLENS[j] && e.iov_base as usize == VBASE[j] as usize + off && off + e.iov_len <= VLENS[j] {
+                        lp = start + off;
+                    }
+                    off += 1;
+                }
+                start += VLENS[j];
+                j += 1;
             }
-            seen += 1;
+            if lp == usize::MAX || lp < cursor {
+                IOV_OK = false;
+                NEXT_OK = false;
+            } else {
+                if lp != cursor {
+                    NEXT_OK = false;
+                }
+                cursor = lp + e.iov_len;
+            }
             offered += e.iov_len;
         }
         i += 1;
-    }
-    if seen != nwant {
-        IOV_OK = false;
     }
     let r = next_resp();
     match r.kind {
         0 => {
             let n = if r.n < offered { r.n } else { offered };
-            // no byte is copied: when IOV_OK holds the handed ranges ARE the caller's next positions,
+            // no byte is copied: when NEXT_OK holds the handed ranges ARE the caller's next positions,
             // so placement is decided by the range comparison above (keeps the formula small)
             MOVED += n;
             n as libc::ssize_t
@@ -537,6 +539,7 @@ pub(super) fn run_vec(entry: VEntry) -> VOutcome {
     }
     unsafe {
         IOV_OK = true;
+        NEXT_OK = true;
         IOV_CALLS = 0;
     }
     let r = match entry {
@@ -580,7 +583,7 @@ pub(super) fn c16_vec_oracle(o: &VOutcome, is_read: bool) {
             kani::assert(o.r == 0, "vectored: a request whose iovecs are all empty returns 0");
         }
         kani::assert(MOVED <= o.total, "vectored: never more bytes than requested");
-        kani::assert(IOV_OK, "vectored: bytes are placed / taken in order at the caller's not-yet-transferred positions");
+        kani::assert(IOV_OK && NEXT_OK, "vectored: bytes are placed / taken in order at the caller's not-yet-transferred positions");
         kani::cover!(IOV_CALLS >= 2 && MOVED >= 2 && o.r >= 0, "vectored transfer spanning more than one kernel call");
         kani::cover!(MOVED > 0 && LAST_ERRNO == libc::ECONNRESET, "error after bytes were already moved");
         kani::cover!(WAITS >= 1 && MOVED > 0, "would-block then data");
@@ -590,7 +593,7 @@ pub(super) fn c16_vec_oracle(o: &VOutcome, is_read: bool) {
 /// C17 oracle: what the kernel was handed.
 pub(super) fn c17_vec_oracle(_o: &VOutcome) {
     unsafe {
-        kani::assert(IOV_OK, "every vectored request describes exactly the caller's unfilled ranges, in order");
+        kani::assert(IOV_OK, "every vectored request describes only the caller's unfilled ranges, in order");
         kani::cover!(IOV_CALLS >= 2 && MOVED >= 1, "second request after a partial first transfer");
         kani::cover!(IOV_CALLS >= 3, "third request");
     }
@@ -608,3 +611,4 @@ io_harness!(c18_mode_readv, 4, { let o = run_vec(VEntry::Readv); unsafe { kani::
 io_harness!(c18_mode_writev, 4, { let o = run_vec(VEntry::Writev); unsafe { kani::assert(BLOCKING == o.blocking0, "the descriptor's blocking mode is left exactly as the caller set it"); } });
 io_harness!(c18_mode_recvmsg, 4, { let o = run_vec(VEntry::Recvmsg); unsafe { kani::assert(BLOCKING == o.blocking0, "the descriptor's blocking mode is left exactly as the caller set it"); } });
 io_harness!(c18_mode_sendmsg, 4, { let o = run_vec(VEntry::Sendmsg); unsafe { kani::assert(BLOCKING == o.blocking0, "the descriptor's blocking mode is left exactly as the caller set it"); } });
+
